@@ -186,6 +186,9 @@ func c09Gen(g *core.Gen) {
 	for _, p := range paths {
 		g.Emit(&c09Case{Kind: "refused", Path: p})
 		g.Emit(&c09Case{Kind: "lenseq", Path: p})
+		for lo := 0; lo < 65536; lo += 16384 {
+			g.Emit(&c09Case{Kind: "firstword", Path: p, Lo: lo, Hi: lo + 16384})
+		}
 		step := 256
 		for lo := 0; lo < 65536; lo += step {
 			g.Emit(&c09Case{Kind: "values", Path: p, Lo: lo, Hi: lo + step})
@@ -467,8 +470,56 @@ func c09LenSeqRun(c *c09Case, r *core.Rec) {
 	r.NontrivialCase()
 }
 
+// c09FirstWordRun: every word value as the FIRST word of a short buffer (followed by a copy of itself and by 1), for a
+// few constants: whatever a kernel remembers from "the previous word" has no previous word there.
+func c09FirstWordRun(c *c09Case, r *core.Rec) {
+	k, why := c09Path(c.Path)
+	if k == nil {
+		r.Count("skipped_"+c.Path, 1)
+		r.Note("path " + c.Path + " skipped: " + why)
+		return
+	}
+	defer k.restore()
+	in, out := make([]byte, 6), make([]byte, 6)
+	n := 0
+	for w := c.Lo; w < c.Hi; w++ {
+		for _, cc := range []uint16{1, 2, 0xffff, 0x1234} {
+			for op := 0; op < 2; op++ {
+				in[0], in[1], in[2], in[3], in[4], in[5] = byte(w), byte(w>>8), byte(w), byte(w>>8), 1, 0
+				for i := range out {
+					out[i] = byte(0x31 + i)
+				}
+				if op == 0 {
+					k.mul(gf2p16.T(cc), in, out)
+				} else {
+					k.mulAdd(gf2p16.T(cc), in, out)
+				}
+				n++
+				for i := 0; i < 6; i += 2 {
+					want := gf16.Mul(cc, uint16(in[i])|uint16(in[i+1])<<8)
+					if op == 1 {
+						want ^= uint16(byte(0x31+i)) | uint16(byte(0x31+i+1))<<8
+					}
+					if got := uint16(out[i]) | uint16(out[i+1])<<8; got != want {
+						r.Violatef("kernel-wrong-value:"+c.Path, "path %s op %d c=%#x: buffer starting with word %#x, word %d = %#x, want %#x", c.Path, op, cc, w, i/2, got, want)
+						return
+					}
+				}
+			}
+		}
+	}
+	r.AddStates(n)
+	r.AddTransitions(n)
+	r.Outcome(fmt.Sprintf("firstword %s %d", c.Path, c.Lo))
+	r.NontrivialCase()
+}
+
 func c09Run(ci interface{}, r *core.Rec) {
 	c := ci.(*c09Case)
+	if c.Kind == "firstword" {
+		c09FirstWordRun(c, r)
+		return
+	}
 	if c.Kind == "lenseq" {
 		c09LenSeqRun(c, r)
 		return
